@@ -186,8 +186,11 @@ class NaiveForecaster(_OptionalForecastingHorizonMixin, _BaseWindowForecaster):
 
             else:
                 # if the window length is not a multiple of sp, we pad the
-                # window with nan values for easy computation of the mean
-                remainder = self.window_length_ % self.sp_
+                # window with nan values for easy computation of the mean; note that
+                # the available window can be shorter than `window_length_` when
+                # making in-sample predictions near the start of the series
+                n_window = len(last_window)
+                remainder = n_window % self.sp_
                 if remainder > 0:
                     pad_width = self.sp_ - remainder
                 else:
@@ -196,7 +199,7 @@ class NaiveForecaster(_OptionalForecastingHorizonMixin, _BaseWindowForecaster):
 
                 # reshape last window, one column per season
                 last_window = last_window.reshape(
-                    np.int(np.ceil(self.window_length_ / self.sp_)), self.sp_
+                    np.int(np.ceil(n_window / self.sp_)), self.sp_
                 )
 
                 # compute seasonal mean, averaging over rows
